@@ -72,4 +72,8 @@ theorem c03_dispatch_total : ∀ e ∈ Gen.Magics.table, e.accepts = true := by
   intro e he
   exact List.all_eq_true.mp h e he
 
+/-- the compiled evaluator has no indexing whose result is undefined under the build's compiler
+directives (`wraparound=False`): cython reports none for the working tree's sources. -/
+theorem c03_no_undefined_indexing : Gen.Magics.undefinedIndexing = [] := by decide
+
 end MwVerif.Templ
